@@ -284,6 +284,17 @@ def run(ctx, out):
                 check_case(ctx, out, descs, w, mode, 'random')
 
 CORPUS = [
+    # an open switch (R = inf) in series with a branch: no current flows through it, the rest is solved as if it were absent
+    ([dict(fn='ground', id='gnd', nodes=['0'], args={}),
+      dict(fn='dc_voltage_source', id='V', nodes=['1', '0'], args=dict(V=6.0, R=1.0)),
+      dict(fn='resistor', id='R1', nodes=['1', '0'], args=dict(R=2.0)),
+      dict(fn='resistor', id='Sw', nodes=['1', '2'], args=dict(R=math.inf)),
+      dict(fn='resistor', id='R2', nodes=['2', '0'], args=dict(R=4.0))], 0.0, 'dc'),
+    ([dict(fn='ground', id='gnd', nodes=['0'], args={}),
+      dict(fn='ac_current_source', id='I', nodes=['0', '1'], args=dict(I=2.0, G=0.5, w=2.0, phi=0.5)),
+      dict(fn='capacitor', id='C', nodes=['1', '0'], args=dict(C=0.25)),
+      dict(fn='resistor', id='Sw', nodes=['1', '2'], args=dict(R=math.inf)),
+      dict(fn='inductance', id='L', nodes=['2', '0'], args=dict(L=1.0))], 2.0, 'rms'),
     # series RLC driven at its source frequency, peak and RMS
     ([dict(fn='ground', id='gnd', nodes=['0'], args={}),
       dict(fn='ac_voltage_source', id='Vs', nodes=['1', '0'], args=dict(V=4.0, R=0.0, w=2.0, phi=math.pi / 2)),
